@@ -9,7 +9,7 @@
     in any order/grouping/delay, ticks, retrievals = back-pressure), for every
     number of CUs and dispatchers. *)
 From Coq Require Import List NArith Bool Arith Lia Permutation.
-From VCp Require Import Resource ResourceProofs Dispatcher DispatcherSteps DispatcherProofs.
+From VCp Require Import Resource ResourceProofs Dispatcher DispatcherSteps DispatcherProofs DispatcherSafety DispatcherLive.
 Import ListNotations.
 Open Scope nat_scope.
 
@@ -219,6 +219,115 @@ Proof.
 Qed.
 Print Assumptions cp_pool_resources_safe.
 
+(** Every run is a sequence of the small steps of VCp.DispatcherSteps as long as
+    it has not panicked.  In particular every placement is made by a [DS_place]
+    step: the reservation recorded with a MapWGReq was computed on the CU of the
+    shared pool as it was at that moment ([pl_before] = that pool entry), and
+    its result became the pool entry. *)
+Theorem run_refines_small_steps : forall c cus n evs,
+  crashed (sh (Dispatcher.run (init_cp c cus n) evs)) = false ->
+  cpsteps (init_cp c cus n) (Dispatcher.run (init_cp c cus n) evs).
+Proof.
+  intros c cus n evs Hc.
+  assert (H0 : crashed (sh (init_cp c cus n)) = false) by reflexivity.
+  exact (proj1 (run_refines evs _ H0 (init_CInt c cus n) Hc)).
+Qed.
+Print Assumptions run_refines_small_steps.
+
+(** No panic under the contract of the environment: every CU has at least one
+    SIMD (and there is at least one CU when the partition algorithm is used),
+    launches have distinct IDs and work-groups of 1..16 wavefronts, and no
+    completion message lists an ID twice.  (IDs that were never sent, or were
+    completed before, do not make the code panic: they stay in the port.) *)
+Theorem no_crash_under_contract : forall c cus n evs,
+  Forall (fun c0 => cfg_simds c0 <> []) cus -> (is_partition (c_alg c) = true -> cus <> []) ->
+  Forall ev16 evs -> NoDup (launch_ids evs) ->
+  crashed (sh (Dispatcher.run (init_cp c cus n) evs)) = false.
+Proof.
+  intros c cus n evs Hs Hp He Hn.
+  apply (sf_nc dem16 cus). apply (run_Safe dem16 dem16_id); auto; try apply init_Safe; try apply init_CInt;
+    try (simpl; intros l []).
+Qed.
+Print Assumptions no_crash_under_contract.
+
+(** The link between MapWGReqs and the pool, spelled out: under the same
+    contract, for every MapWGReq ever sent (of finished and of running
+    launches) the reservation behind it was made on a state of the addressed CU
+    that satisfied the resource invariant, and therefore (reserve_only_if_fits)
+    every region it names was free and every SIMD had the wavefront slots. *)
+Theorem mapped_wg_fits : forall c cus n evs,
+  Forall (fun c0 => cfg_simds c0 <> []) cus -> (is_partition (c_alg c) = true -> cus <> []) ->
+  Forall ev16 evs -> NoDup (launch_ids evs) ->
+  let s := Dispatcher.run (init_cp c cus n) evs in
+  forall mp,
+    ((exists f, In f (g_hist (sh s)) /\ In mp (f_sent f)) \/ (exists d, In d (disps s) /\ In mp (g_sent d))) ->
+    let p := snd mp in
+    mr_cu (fst mp) = pl_cu p /\ mr_key (fst mp) = pl_key p /\ mr_locs (fst mp) = pl_locs p /\
+    exists c0 c', nth_error cus (pl_cu p) = Some c0 /\ Inv c0 (pl_before p) /\
+      reserve (pl_before p) (pl_key p) (pl_dem p) = Ret c' (Some (pl_locs p)) /\
+      length (pl_locs p) = d_nwf (pl_dem p) /\
+      (forall l, In l (pl_locs p) -> all_free (smask (pl_before p)) (sreg_of (pl_dem p) l)) /\
+      (forall l, In l (pl_locs p) -> all_free (lmask (pl_before p)) (lreg_of (pl_dem p) l)) /\
+      (forall l, In l (pl_locs p) -> exists sd, nth_error (simds (pl_before p)) (l_simd l) = Some sd /\
+                                               all_free (vmask sd) (vreg_of (pl_dem p) l)) /\
+      (forall i sd, nth_error (simds (pl_before p)) i = Some sd ->
+         (N.of_nat (length (filter (on_simd i) (pl_locs p))) <= wf_free sd)%N).
+Proof.
+  intros c cus n evs Hs Hp He Hn s mp Hin p.
+  assert (HS : Safe dem16 cus s).
+  { apply (run_Safe dem16 dem16_id); auto; try apply init_Safe; try apply init_CInt; try (simpl; intros l []). }
+  assert (Hboth : mr_ok mp /\ pl_link cus dem16 p).
+  { destruct Hin as [[f [Hf Hm]]|[d [Hd Hm]]].
+    - pose proof (ci_hist _ (sf_cp _ _ _ HS)) as HH. pose proof (sf_hist _ _ _ HS) as HL.
+      rewrite Forall_forall in HH, HL. destruct (HH f Hf) as [_ [Hok _]].
+      specialize (HL f Hf). rewrite Forall_forall in Hok, HL. split; [apply Hok|apply HL]; auto.
+    - pose proof (ci_disps _ (sf_cp _ _ _ HS)) as HD. pose proof (sf_k _ _ _ HS) as HK.
+      rewrite Forall_forall in HD, HK. destruct (HD d Hd) as [_ [Hok _]]. destruct (HK d Hd) as [_ [HL _]].
+      rewrite Forall_forall in Hok, HL. split; [apply Hok|apply HL]; auto. }
+  destruct Hboth as [[Hk [Hcu [Hlocs [c' Hres]]]] [c0 [Hc0 [HI0 Hd16]]]].
+  split; auto. split; auto. split; auto. exists c0, c'. split; auto. split; auto. split; auto.
+  apply (reserve_only_if_fits_lemma c0 _ _ _ _ _ HI0 (dem16_ok _ Hd16) Hres).
+Qed.
+Print Assumptions mapped_wg_fits.
+
+(** Liveness (round-robin and greedy).  [mu] is a ranking function: per
+    dispatcher (K+1)*(work-groups of its launch not yet completed + pending
+    response) + countdown + work-groups not yet mapped, plus a term for every
+    launch still waiting in the port.  In a state whose ports the environment
+    has served ([GoodEnv]: MapWGReqs taken, room for a response, a completion
+    message waiting for every work-group in flight and only for those), with
+    every work-group fitting an empty CU of the pool and at least one
+    dispatcher, a tick strictly decreases [mu] unless every launch has been
+    answered. *)
+Theorem dispatch_progress : forall cus s,
+  Safe (PL cus) cus s -> CInt s ->
+  is_partition (c_alg (cfg s)) = false -> Forall (fun c0 => cfg_simds c0 <> []) cus ->
+  0 < c_cap (cfg s) -> disps s <> [] -> GoodEnv s -> ~ done s ->
+  mu (fst (cp_tick s)) < mu s.
+Proof. exact tick_progress. Qed.
+Print Assumptions dispatch_progress.
+
+(** Hence, under a fair completion schedule (rounds: a tick, then the
+    environment retrieves and completes so that [GoodEnv] holds again), the
+    number of rounds during which some launch is still unanswered is at most
+    [mu] of the starting state; and when nothing is running or waiting every
+    accepted launch has been answered exactly once. *)
+Theorem launches_answered_within_bound : forall cus k s s',
+  Forall (fun c0 => cfg_simds c0 <> []) cus -> Live cus s -> busy_rounds cus k s s' ->
+  Live cus s' /\ mu s' + k <= mu s.
+Proof. exact busy_rounds_bound. Qed.
+Print Assumptions launches_answered_within_bound.
+
+Theorem done_means_all_answered : forall c cus n evs,
+  let s := Dispatcher.run (init_cp c cus n) evs in
+  crashed (sh s) = false -> done s ->
+  Permutation (g_started s) (map f_launch (g_hist (sh s))) /\
+  g_rretr s ++ drv_out (sh s) = map (fun f => lr_id (f_launch f)) (g_hist (sh s)).
+Proof.
+  intros c cus n evs s Hc Hd. apply done_all_answered; auto. apply DispatcherProofs.run_inv. exact Hc.
+Qed.
+Print Assumptions done_means_all_answered.
+
 (** * Non-vacuity *)
 
 (** a CU with 2 SIMDs (1 and 2 wavefront slots, 8 VGPR units each), 4 SGPR
@@ -300,3 +409,55 @@ Example demo_cu_retry :
     [CDeliver 1%N; CTick; CEmu; CHandle; CDeliver 2%N; CTick; CEmu; CHandle; CHandle; CHandle; CRetr; CHandle; CRetr] in
   g_retr s = [[1%N]; [2%N]] /\ pending s = [] /\ finished s = [].
 Proof. vm_compute. repeat split; reflexivity. Qed.
+
+(** non-vacuity of the liveness premises: after two launch requests were
+    delivered to the demo command processor all of [Live] holds, some launch is
+    unanswered, and the bound is 32 rounds. *)
+Lemma demo_fits : forall dm, In dm (lr_wgs demo_l1 ++ lr_wgs demo_l2) -> PL demo_cus dm.
+Proof.
+  assert (Hform : forall c0 cu, Inv c0 cu -> resident cu = [] -> length (cfg_simds c0) = 1 ->
+            cu = mkCU (smask (init_cu c0)) (lmask (init_cu c0)) (simds (init_cu c0)) 0 []).
+  { intros c0 cu HI Hr Hl.
+    destruct (inv_determined c0 cu (init_cu c0) HI (init_inv c0) Hr) as [E1 [E2 E3]].
+    pose proof (inv_next _ _ HI) as Hn. pose proof (inv_nsimd _ _ HI) as Hns.
+    destruct cu as [sm lm0 sims ns res]. simpl in *. subst. f_equal.
+    destruct Hn as [Hn|[_ Hn]]; [rewrite Hns, Hl in Hn; lia|auto]. }
+  intros dm Hin. simpl in Hin.
+  destruct Hin as [<-|[<-|[<-|[<-|[<-|[]]]]]]; (split; [unfold dem16; simpl; lia|]).
+  - exists 0, (mkCfg 64 512 [(1024, 1)%N]). split; [reflexivity|]. intros cu k HI Hr.
+    rewrite (Hform _ _ HI Hr eq_refl). eexists. eexists. vm_compute. reflexivity.
+  - exists 0, (mkCfg 64 512 [(1024, 1)%N]). split; [reflexivity|]. intros cu k HI Hr.
+    rewrite (Hform _ _ HI Hr eq_refl). eexists. eexists. vm_compute. reflexivity.
+  - exists 0, (mkCfg 64 512 [(1024, 1)%N]). split; [reflexivity|]. intros cu k HI Hr.
+    rewrite (Hform _ _ HI Hr eq_refl). eexists. eexists. vm_compute. reflexivity.
+  - exists 1, (mkCfg 64 512 [(1024, 2)%N]). split; [reflexivity|]. intros cu k HI Hr.
+    rewrite (Hform _ _ HI Hr eq_refl). eexists. eexists. vm_compute. reflexivity.
+  - exists 1, (mkCfg 64 512 [(1024, 2)%N]). split; [reflexivity|]. intros cu k HI Hr.
+    rewrite (Hform _ _ HI Hr eq_refl). eexists. eexists. vm_compute. reflexivity.
+Qed.
+
+Example demo_live :
+  let s0 := Dispatcher.run (init_cp demo_cp_cfg demo_cus 2) [ELaunch demo_l1; ELaunch demo_l2] in
+  Live demo_cus s0 /\ ~ done s0 /\ mu s0 = 32.
+Proof.
+  intros s0.
+  assert (Hev : Forall (evP (PL demo_cus)) [ELaunch demo_l1; ELaunch demo_l2]).
+  { constructor; [|constructor; [|constructor]]; simpl; apply Forall_forall; intros dm Hd;
+      apply demo_fits; apply in_or_app; auto. }
+  assert (Hsim : Forall (fun c0 => cfg_simds c0 <> []) demo_cus) by (repeat constructor; discriminate).
+  assert (HS : Safe (PL demo_cus) demo_cus s0).
+  { apply (run_Safe (PL demo_cus) (PL16 demo_cus)); auto; try apply init_Safe; try apply init_CInt;
+      try discriminate; try (simpl; intros l []).
+    vm_compute. repeat constructor; simpl; intuition discriminate. }
+  split; [|split].
+  - constructor; auto.
+    + assert (H0 : crashed (sh (init_cp demo_cp_cfg demo_cus 2)) = false) by reflexivity.
+      apply (proj2 (run_refines _ _ H0 (init_CInt demo_cp_cfg demo_cus 2) (sf_nc _ _ _ HS))).
+    + vm_compute. lia.
+    + vm_compute. discriminate.
+    + split; [reflexivity|]. split; [vm_compute; lia|]. split.
+      * intros d id Hd Hid. vm_compute in Hd. destruct Hd as [<-|[<-|[]]]; inversion Hid.
+      * intros m Hm. vm_compute in Hm. inversion Hm.
+  - intros [_ Hd]. vm_compute in Hd. discriminate.
+  - vm_compute. reflexivity.
+Qed.
